@@ -24,13 +24,13 @@ from vlib.topo import LinkSpec, Topo
 
 PID = "C19"
 T1, T2 = 1 / 256, 1 / 128
-OPS = ["step(T1)", "step(T2)", "step_fail", "init(L1)", "init(O1)", "init(D1)", "add_ramp", "add_branch", "replace_dest", "compile(0)", "compile(1)", "compile(2)"]
+OPS = ["step(T1)", "step(T2)", "step_fail", "init(L1)", "init(O1)", "init(D1)", "add_ramp", "add_branch", "replace_dest", "replace_origin", "compile(0)", "compile(1)", "compile(2)"]
 
 
-def topo_for(has_ramp, has_branch, dest="D1"):
+def topo_for(has_ramp, has_branch, dest="D1", origin="O1", ideal_base=False):
     links = [LinkSpec("L1", "N1", "N2", 2), LinkSpec("L2", "N2", "N3", 1)]
     nodes = ["N1", "N2", "N3"]
-    origins = {"N1": ("O1", "ramp_out")}
+    origins = {"N1": (origin, ("ideal" if ideal_base else "ramp_out") if origin == "O1" else "main")}
     dests = {"N3": (dest, "free" if dest == "D1" else "cong")}
     if has_ramp and not has_branch:
         origins["N2"] = ("O2", "simp_lim")
@@ -55,9 +55,16 @@ class World:
         self.links = {"L1": mk("L1", 2), "L2": mk("L2", 1), "L3": mk("L3", 1)}
         if symtype == "SX":
             self.links["L3"].name = "L2"  # a distinct link that merely carries the name of an existing one (SX histories only)
-        self.origins = {"O1": M.MeteredOnRamp(v["C_O1"], name="O1"), "O2": M.SimplifiedMeteredOnRamp(v["C_O2"], name="O2")}
+        self.origins = {"O1": M.MeteredOnRamp(v["C_O1"], name="O1"), "O2": M.SimplifiedMeteredOnRamp(v["C_O2"], name="O2"),
+                        "O3": M.MainstreamOrigin(name="O3")}
+        self.origin_name = "O1"
+        self.ideal_base = symtype == "MX"  # MX histories start from an ideal (state-less) origin, SX ones from a metered ramp
+        if self.ideal_base:
+            self.origins["O1"] = M.Origin(name="O1")
         self.dests = {"D1": M.Destination(name="D1"), "D2": M.Destination(name="D2"), "D3": M.CongestedDestination(name="D3")}
         self.dest_name = "D1"
+        if symtype == "MX":
+            self.origins["O1"] = M.Origin(name="O1")
         self.net = M.Network(name="c19").add_path([self.nodes["N1"], self.links["L1"], self.nodes["N2"], self.links["L2"], self.nodes["N3"]],
                                                   origin=self.origins["O1"], destination=self.dests["D1"])
         self.engine = runs.casadi_engine(symtype)
@@ -68,9 +75,13 @@ class World:
         self.lastT = None
 
     def has_vars(self, e):
+        if e == "O1" and getattr(self, "ideal_base", False):
+            return False
         return e not in ("D1", "D2")  # free destinations declare no variables; the congested destination D3 declares a disturbance
 
     def has_states(self, e):
+        if e == "O1" and getattr(self, "ideal_base", False):
+            return False
         return e[0] in "LO"
 
     def kw(self, T):
@@ -105,7 +116,17 @@ class World:
                 self.status[e] = "current"
             self.lastT = T
             self.in_step = set(self.present)
-            self.topo_at_step = topo_for(self.has_ramp, self.has_branch, self.dest_name)
+            self.topo_at_step = topo_for(self.has_ramp, self.has_branch, self.dest_name, self.origin_name, self.ideal_base)
+            return "ok", None
+        if op == "replace_origin":
+            if self.origin_name == "O3":
+                return "skip", None
+            # a mainstream origin (states, actions, disturbances) replaces the metered ramp at the source node
+            self.net.add_origin(self.origins["O3"], self.nodes["N1"])
+            self.present = [("O3" if e == "O1" else e) for e in self.present]
+            self.status.pop("O1", None)
+            self.status["O3"] = "uninit"
+            self.origin_name = "O3"
             return "ok", None
         if op == "replace_dest":
             if self.dest_name == "D3":
@@ -121,6 +142,8 @@ class World:
             e = op[5:-1]
             if e == "D1":
                 e = self.dest_name
+            if e == "O1":
+                e = self.origin_name
             el = self.links.get(e) or self.origins.get(e) or self.dests.get(e)
             el.init_vars(engine=self.engine)
             if not self.has_vars(e):
@@ -176,7 +199,7 @@ class World:
 
 
 def check_function(w: World, c, F, prover, acc, hist):
-    topo = topo_for(w.has_ramp, w.has_branch, w.dest_name)
+    topo = topo_for(w.has_ramp, w.has_branch, w.dest_name, w.origin_name, w.ideal_base)
     if F.has_free():
         return "returned function has free symbols"
     if c != 0:
@@ -193,9 +216,10 @@ def check_function(w: World, c, F, prover, acc, hist):
     ref = ref_metanet.Ref(getattr(w, "topo_at_step", topo))  # the network as it was when it was last stepped
     for (nm, vals), (_, slots) in zip(named, outs):
         for s, (_, el, st, i) in zip(vals, slots):
-            r = netcheck.apply_numeric(ref.next[(el, st)][i], numeric)
-            ok = acc.query(prover, topo, f"history {hist}", f"{nm}[{i}] reflects the most recent step", s.t == r,
-                           [netcheck.apply_numeric(d, numeric) for d in ref_metanet.admissible_domain(topo)], (), lambda m: None, sample=True)
+            r = discharge.fold_ufs(netcheck.apply_numeric(ref.next[(el, st)][i], numeric))  # constant-argument exp/pow as CasADi folds them
+            dom = [netcheck.apply_numeric(d, numeric) for d in ref_metanet.admissible_domain(topo)]
+            dom += [discharge.fold_ufs(netcheck.apply_numeric(d, numeric)) for d in ref.extra_domain.get((el, st, i), [])]
+            ok = acc.query(prover, topo, f"history {hist}", f"{nm}[{i}] reflects the most recent step", s.t == r, dom, (), lambda m: None, sample=True)
             if not ok:
                 # decide numerically (replay) whether it is a real disagreement
                 env = numrun.sample_env(topo, random.Random(1))
